@@ -12,8 +12,8 @@ and with the real target's own log-density along the hyper-parameter.
 META = {
     "claimed": True,
     "engine": "Conjugate.tla",
-    "text": ("TLC checks on every instance of the bounded model (i.i.d. Gaussian dim<=3/6 with cov=1/d or prec=d, optionally "
-             "through a linear model; GMRF 1-D n<=5/8 and 2-D n<=3/4, orders 0-2, zero/periodic/neumann; two data/prior "
+    "text": ("TLC checks on every instance of the bounded model (i.i.d. Gaussian dim<=3/8 with cov=1/d or prec=d, optionally "
+             "through a linear model; GMRF 1-D n<=5/12 and 2-D n<=3/5, orders 0-2, zero/periodic/neumann; two data/prior "
              "variants; decision table of 6+2 dependence kinds x 5 attributes x gamma dim x occurrences; LMRF and direct rows) "
              "that the Gamma the modelled sampler draws from differs from the target's documented log-density along "
              "d in {1,2,4} by a constant (symbolic logs), that the probing validation equals the documented table, that rejected "
